@@ -214,7 +214,9 @@ Section WithFloatFormat.
         else if w && fast_slice_elem (elem_ty t) then VArr []
         else VUndef
     | GVSlice (Some es) =>
-        if w && (match elem_ty t with GInt KUint8 => true | _ => false end) then VBinary (Some (bytes_of es))
+        (* wrap: case []byte -> WrapBinary; wrapReflected :735: []byte is among the wellKnown types (zinit.go,
+           fix 61e98a6), a well-known that is not a px.Value is handed to wrap *)
+        if (match elem_ty t with GInt KUint8 => true | _ => false end) then VBinary (Some (bytes_of es))
         else (* :714 els[i] = wrap(c, interfaceOrNil(vr.Index(i))) — also what WrapInts/WrapStrings/WrapInterfaces do *)
           VArr (map (wrapx true (elem_ty t)) es)
     | GVMap None =>
@@ -261,6 +263,7 @@ Fixpoint ptype_of (t : gty) : ty :=
   | GFloat64 => TFloat neg_max_float64_bits max_float64_bits
   | GString => TString
   | GBool => TBoolean
+  | GSlice (GInt KUint8) => TBinary         (* :843 wellKnown[[]byte] (zinit.go, fix 61e98a6) *)
   | GSlice e => TArray (ptype_of e)
   | GMap k v => THash (ptype_of k) (ptype_of v)
   | GPtr e => TOptional (ptype_of e)       (* also :806: a registered *struct -> Optional[its object type] *)
@@ -352,6 +355,29 @@ Fixpoint gty_eqb (a b : gty) {struct a} : bool :=
 
 Definition is_iface (t : gty) : bool := match t with GIface => true | _ => false end.
 
+Definition bytes_gval (o : option str) : gval :=
+  GVSlice (match o with None => None | Some bs => Some (map (fun x => GVInt (Z.of_N x)) bs) end).
+
+(* binarytype.go:243: switch value.Type().Elem().Kind() *)
+Definition binary_to (t : gty) (o : option str) : res gval :=
+  match t with
+  | GSlice (GInt KUint8) => Ok (bytes_gval o)
+  | GSlice (GInt KInt8) | GPtr (GInt KInt8) | GPtr (GInt KUint8) | GMap _ (GInt KInt8) | GMap _ (GInt KUint8) => Fault  (* SetBytes *)
+  | GSlice GIface | GPtr GIface | GMap _ GIface => Fault      (* value.Set([]byte) *)
+  | GSlice _ | GPtr _ | GMap _ _ => Err EWrongKind
+  | _ => Fault                                                (* Elem of a type without element *)
+  end.
+
+(* hashtype.go:957 the loop over the entries: rk / rv are Reflect2 into the key / value type
+   :975 rv = Reflect2(e.value, valueType) (undef into interface{}: the nil interface, fix 377213a);
+        m.SetMapIndex(Reflect2(e.key, keyType), rv) *)
+Definition hash_build (rk rv : value -> res gval) : list (value * value) -> list (gval * gval) -> res (list (gval * gval)) :=
+  fix go (l : list (value * value)) (m : list (gval * gval)) {struct l} : res (list (gval * gval)) :=
+    match l with
+    | [] => Ok m
+    | (k, x) :: l' => rbind (rv x) (fun gx => rbind (rk k) (fun gk => go l' (map_put gk gx m)))
+    end.
+
 (* reflect_to t v  =  Reflector.Reflect2(v, t): a fresh settable destination of type t, then ReflectTo *)
 Fixpoint reflect_to (t : gty) (v : value) {struct v} : res gval :=
   match t with
@@ -393,14 +419,11 @@ Fixpoint reflect_to (t : gty) (v : value) {struct v} : res gval :=
       | GBool => Ok (GVBool b)
       | _ => Fault
       end
-  | VBinary o => (* binarytype.go:235: switch value.Type().Elem().Kind() *)
+  | VBinary o =>
       match t with
-      | GSlice (GInt KUint8) =>
-          Ok (GVSlice (match o with None => None | Some bs => Some (map (fun x => GVInt (Z.of_N x)) bs) end))
-      | GSlice (GInt KInt8) | GPtr (GInt KInt8) | GPtr (GInt KUint8) | GMap _ (GInt KInt8) | GMap _ (GInt KUint8) => Fault  (* SetBytes *)
-      | GSlice GIface | GPtr GIface | GMap _ GIface => Fault      (* value.Set([]byte) *)
-      | GSlice _ | GPtr _ | GMap _ _ => Err EWrongKind
-      | _ => Fault                                                (* Elem of a type without element *)
+      | GPtr (GSlice e) => (* binarytype.go:236 a pointer to a slice: reflect into a new slice and point to it (fix 61e98a6) *)
+          rbind (binary_to (GSlice e) o) (fun s => Ok (GVPtr (Some s)))
+      | _ => binary_to t o
       end
   | VArr vs => (* arraytype.go:530 *)
       match t with
@@ -409,15 +432,7 @@ Fixpoint reflect_to (t : gty) (v : value) {struct v} : res gval :=
       | _ => Fault                                       (* reflect.MakeSlice of a non-slice type *)
       end
   | VHash es => (* hashtype.go:946 *)
-      let build kt et :=
-        (fix go (l : list (value * value)) (m : list (gval * gval)) {struct l} : res (list (gval * gval)) :=
-           match l with
-           | [] => Ok m
-           | (k, x) :: l' =>
-               (* :964 rv = Reflect2(e.value, valueType) (undef into interface{}: the nil interface, fix 377213a);
-                  m.SetMapIndex(Reflect2(e.key, keyType), rv) *)
-               rbind (reflect_to et x) (fun gx => rbind (reflect_to kt k) (fun gk => go l' (map_put gk gx m)))
-           end) in
+      let build kt et := hash_build (reflect_to kt) (reflect_to et) in
       match t with
       | GMap kt et => rbind (build kt et es []) (fun m => Ok (GVMap (Some m)))
       | GPtr (GMap kt et) => rbind (build kt et es []) (fun m => Ok (GVPtr (Some (GVMap (Some m)))))
@@ -537,13 +552,13 @@ Fixpoint rt_ok (w : bool) (t : gty) (v : gval) {struct v} : bool :=
   end.
 
 (* acc_ok w t v: none of the input classes on which the derived type is known to REJECT the wrapped value:
-   uint64-ge-2^63, float-nonfinite, nil-slice-map-undef, byte-slice-binary *)
+   uint64-ge-2^63, float-nonfinite, nil-slice-map-undef *)
 Fixpoint acc_ok (w : bool) (t : gty) (v : gval) {struct v} : bool :=
   match v with
   | GVInt z => match t with GInt KUint | GInt KUint64 => z <? two63 | _ => true end
   | GVFloat b => f_finite b
-  | GVSlice None => w && fast_slice_elem (elem_ty t)
-  | GVSlice (Some es) => negb (w && is_u8 (elem_ty t)) && forallb (acc_ok true (elem_ty t)) es
+  | GVSlice None => w && (fast_slice_elem (elem_ty t) || is_u8 (elem_ty t))
+  | GVSlice (Some es) => forallb (acc_ok true (elem_ty t)) es
   | GVMap None => w && fast_map (key_ty t) (elem_ty t)
   | GVMap (Some kvs) => forallb (fun kv => acc_ok true (key_ty t) (fst kv) && acc_ok true (elem_ty t) (snd kv)) kvs
   | GVPtr (Some x) =>
@@ -552,5 +567,101 @@ Fixpoint acc_ok (w : bool) (t : gty) (v : gval) {struct v} : bool :=
       | GVSlice None | GVMap None | GVPtr None => true       (* undef: accepted by the Optional *)
       | _ => acc_ok false (elem_ty t) x
       end
+  | _ => true
+  end.
+
+(* ------------------------------------------------------------------------------------------------ *)
+(** * Struct <-> object: the object type derived from a struct (reflector.go TypeFromReflect / InitializerFromTagged /
+      ReflectFieldTags), the reflected object of a struct (objectvalue.go reflectedObject) and the positional
+      constructor of the derived type (objecttype.go:1126 createNewFunction) *)
+
+(* issue.FirstToLower of an exported field name (ASCII names: the first letter is lower-cased) *)
+Definition first_to_lower (s : str) : str :=
+  match s with
+  | c :: s' => (if (65 <=? c)%N && (c <=? 90)%N then (c + 32)%N else c) :: s'
+  | [] => []
+  end.
+
+(* reflector.go:355 ReflectFieldTags *)
+Definition attr_name (f : gfield) : str :=
+  match f_tname f with Some n => n | None => first_to_lower (f_goname f) end.      (* :361 name tag, :419 *)
+Definition attr_ty (f : gfield) : ty := ptype_of (f_ty f).                          (* :383 WrapReflectedType(f.Type) *)
+Definition attr_has_value (f : gfield) : bool :=
+  match f_tvalue f with
+  | Some _ => true                       (* :367 a value tag *)
+  | None => is_ptr_ty (f_ty f)           (* :388 the type is an Optional: the implicit value undef *)
+  end.
+
+(* objecttype.go:1050 createAttributesInfo: positional order = the attributes without a value, then those
+   with one, each group in declaration order; (index of the field, field) *)
+Definition indexed_fields (fs : list gfield) : list (nat * gfield) := combine (seq 0 (length fs)) fs.
+Definition attr_order (fs : list gfield) : list (nat * gfield) :=
+  filter (fun p => negb (attr_has_value (snd p))) (indexed_fields fs) ++
+  filter (fun p => attr_has_value (snd p)) (indexed_fields fs).
+
+Definition obj_attr_names (fs : list gfield) : list str := map (fun p => attr_name (snd p)) (attr_order fs).
+
+(* a struct taken out of an addressable struct (the pointee of a pointer, a freshly allocated object) is
+   addressable itself *)
+Definition set_addr (a : bool) (v : value) : value :=
+  match v with VObj n _ (GVStruct fs) => VObj n a (GVStruct fs) | _ => v end.
+
+(* objectvalue.go:329 reflectedObject.Get(name) = wrap(nil, structVal().FieldByName(goName)) = wrapReflected of the
+   field; per attribute in positional order.  a = the struct is addressable (the object holds a pointer) *)
+Definition obj_gets (ffmt : Z -> str) (a : bool) (fs : list gfield) (vs : list gval) : list value :=
+  map (fun p => set_addr a (wrap_reflected ffmt (f_ty (snd p)) (nth (fst p) vs GVOutside))) (attr_order fs).
+
+Fixpoint set_nth {A} (i : nat) (x : A) (l : list A) : list A :=
+  match l, i with
+  | [], _ => []
+  | _ :: l', O => x :: l'
+  | y :: l', S i' => y :: set_nth i' x l'
+  end.
+
+Fixpoint args_ok (order : list (nat * gfield)) (args : list value) : bool :=
+  match order, args with
+  | [], [] => true
+  | p :: order', a :: args' => inst (attr_ty (snd p)) a && args_ok order' args'
+  | _, _ => false
+  end.
+
+(* objectvalue.go:298 setValues: rf.ReflectTo(values[i], struct.FieldByName(attrs[i].GoName())) in positional order *)
+Fixpoint set_values (order : list (nat * gfield)) (args : list value) (acc : list gval) : res (list gval) :=
+  match order, args with
+  | p :: order', a :: args' =>
+      rbind (reflect_to (f_ty (snd p)) a) (fun x => set_values order' args' (set_nth (fst p) x acc))
+  | _, _ => Ok acc
+  end.
+
+(* px.New(type, args...) with ONE ARGUMENT PER ATTRIBUTE through the positional creator (objecttype.go:1185: every
+   argument must be an instance of the type of its attribute, else the dispatcher reports IllegalArguments):
+   objectvalue.go:43 AllocObjectValue = the zero struct (addressable), :285 Initialize -> setValues.
+   Calls with fewer arguments (defaults) and the named-argument creator are not modelled. *)
+Definition obj_new (n : str) (fs : list gfield) (args : list value) : res value :=
+  if args_ok (attr_order fs) args then
+    rbind (set_values (attr_order fs) args (map (fun f => zero_of (f_ty f)) fs))
+          (fun vs => Ok (VObj n true (GVStruct vs)))
+  else Err EArgs.
+
+(* the fields are outside the input classes of the open findings (interface{} fields hold anything) *)
+Fixpoint obj_ok (fs : list gfield) (vs : list gval) {struct fs} : bool :=
+  match fs, vs with
+  | [], [] => true
+  | f :: fs', v :: vs' =>
+      (is_iface (f_ty f) || (rt_ok false (f_ty f) v && acc_ok false (f_ty f) v)) && obj_ok fs' vs'
+  | _, _ => false
+  end.
+
+(* no member of an input class of an open finding (and no interface content of a non-canonical dynamic type)
+   anywhere in the value: the guards rt_ok / acc_ok hold whatever the position *)
+Fixpoint plain_value (t : gty) (v : gval) {struct v} : bool :=
+  match v with
+  | GVInt z => match t with GInt KUint | GInt KUint64 => z <? two63 | _ => true end
+  | GVFloat b => f_finite b
+  | GVSlice None | GVMap None => false
+  | GVSlice (Some es) => forallb (plain_value (elem_ty t)) es
+  | GVMap (Some kvs) => forallb (fun kv => plain_value (key_ty t) (fst kv) && plain_value (elem_ty t) (snd kv)) kvs
+  | GVPtr (Some x) => is_struct_ty (elem_ty t) || (negb (is_ptr_ty (elem_ty t)) && plain_value (elem_ty t) x)
+  | GVIface (Some (d, x)) => canonical_dyn d
   | _ => true
   end.
